@@ -421,6 +421,26 @@ func (runInfo *runInfoStruct) invokeLetDerefExpr(expr *ast.DerefExpr) {
 		return
 	}
 
-	runInfo.rv.Elem().Set(value)
+	if runInfo.rv.Kind() == reflect.Interface && !runInfo.rv.IsNil() {
+		runInfo.rv = runInfo.rv.Elem()
+	}
+	if runInfo.rv.Kind() != reflect.Ptr || runInfo.rv.IsNil() {
+		runInfo.err = newStringError(expr.Expr, "cannot deference non-pointer")
+		runInfo.rv = nilValue
+		return
+	}
+	elem := runInfo.rv.Elem()
+	if !elem.CanSet() {
+		runInfo.err = newStringError(expr, "pointer target cannot be assigned")
+		runInfo.rv = nilValue
+		return
+	}
+	value, runInfo.err = convertReflectValueToType(value, elem.Type())
+	if runInfo.err != nil {
+		runInfo.err = newStringError(expr, "type "+value.Type().String()+" cannot be assigned to type "+elem.Type().String())
+		runInfo.rv = nilValue
+		return
+	}
+	elem.Set(value)
 	runInfo.rv = value
 }
